@@ -886,3 +886,49 @@ func init() {
 }
 
 var _ = big.NewInt
+
+func init() {
+	intrinsics["errors.As"] = func(in *Interp, fr *Frame, args []Value) Value {
+		tgt, ok := args[1].(IfaceV)
+		if !ok || tgt.T == nil {
+			in.goPanicf("errors: target cannot be nil")
+		}
+		pt, ok := tgt.T.Underlying().(*types.Pointer)
+		tp, _ := tgt.V.(PtrV)
+		if !ok || tp.C == nil {
+			in.goPanicf("errors: target must be a non-nil pointer")
+		}
+		elem := pt.Elem()
+		cur := args[0]
+		for k := 0; k < 20; k++ {
+			iv, ok := cur.(IfaceV)
+			if !ok || iv.T == nil {
+				return False
+			}
+			if it, isI := elem.Underlying().(*types.Interface); isI {
+				if in.implements(iv.T, it) {
+					in.store(tp, iv)
+					return True
+				}
+			} else if types.Identical(iv.T, elem) {
+				in.store(tp, iv.V)
+				return True
+			}
+			if p, ok := iv.V.(PtrV); ok && p.C != nil {
+				if e, ok := p.C.V.(*ErrV); ok {
+					if e.Wrap == nil {
+						return False
+					}
+					cur = e.Wrap
+					continue
+				}
+			}
+			if in.hasMethod(iv.T, "Unwrap") {
+				cur = in.callMethod(iv.T, iv.V, "Unwrap")
+				continue
+			}
+			return False
+		}
+		return False
+	}
+}
